@@ -129,6 +129,13 @@ def layouts(tier):
                                                            sg('MID', 'TOP', -108000 + 600, -540000 + 600, 11, 11, 120, 120, kind, 1),
                                                            sg('FINE', 'MID', -108000 + 840, -540000 + 960, 9, 7, 30, 30, kind, 2),
                                                            sg('FAR', 'NONE', 162000, 270000, 4, 4, 300, 300, kind, 3)]})
+    # the three nested levels in EVERY file order (a file need not list a parent before its children, nor coarse before fine)
+    import itertools
+    lv = {'T': sg('TOP', 'NONE', -108000, -540000, 6, 7, 600, 600, 'linear', 0), 'M': sg('MID', 'TOP', -108000 + 600, -540000 + 600, 11, 11, 120, 120, 'linear', 1),
+          'F': sg('FINE', 'MID', -108000 + 840, -540000 + 960, 9, 7, 30, 30, 'linear', 2)}
+    for perm in itertools.permutations('TMF'):
+        if perm != ('T', 'M', 'F'):
+            out.append({'id': 'three-level-order-' + ''.join(perm), 'subs': [dict(lv[c]) for c in perm]})
     return out
 
 
